@@ -22,6 +22,8 @@ import Rtcm.Lemmas.Layout
     payload that starts with the cells written in that order — in particular the byte string
     `packBytes cells` — yields exactly the attributes the layout assigned, consumes exactly the sum
     of the cell widths, and nothing else.
+  * CONVERSE (`C03_parse_iff_layout`): every successful parse is such a layout, so the parser's
+    result is *characterised* by the layout specification.
   The layout walk shares the *per-occurrence* functions (`fieldWidth`, `interp`, `fieldStore`,
   `fieldSpecial`, `countOf`, `optMatches`) with the parser model; what the theorem adds is that the
   parser's offset arithmetic and bit extraction put every occurrence on its own cell, for every
@@ -174,6 +176,23 @@ theorem C03_cells_in_order (a b : List Cell) (hb : Fits b) : Payload.Prefix (pac
 theorem C03_cell_readback (pre : List Cell) (w v : Nat) (h : v < 2 ^ w) :
     extract (pack (pre ++ [(w, v)])) (pack pre).blen w = some v := by
   rw [pack_append_singleton]; exact extract_push _ w v h
+
+/-- **Parsing = laying out.**  For every identity, definition, label option and payload bytes: the
+    parser accepts the payload with final decoder state `s` **iff** `s` is the layout of some list
+    of raw field values whose cells, packed in definition order, are a prefix of the payload bits.
+    (⇐ is the round trip; ⇒ says the parser never produces anything but a layout: the consumed
+    bits are tiled exactly by the cells, one cell per bit-carrying field occurrence, all values used.) -/
+theorem C03_parse_iff_layout (id : Ident) (label : Nat) (d : List Item) (bs : Bytes) (s : DState) :
+    decItems ⟨T, Payload.ofBytes bs, id, label⟩ d [] DState.init = .ok s
+    ↔ ∃ vals cells, layout T id label d vals = .ok ⟨s, [], cells⟩
+        ∧ Payload.Prefix (pack cells) (Payload.ofBytes bs) := by
+  constructor
+  · intro h
+    obtain ⟨vals, cells, h1, h2, _⟩ := layout_complete T C06_labels_zero_width id label d (Payload.ofBytes bs)
+      (by simpa [Payload.ofBytes] using bytesToNat_lt bs) s h
+    exact ⟨vals, cells, h1, h2⟩
+  · rintro ⟨vals, cells, h1, h2⟩
+    exact (C03_layout_roundtrip id label d vals _ h1).2 _ h2
 
 /-- non-vacuity: a GPS MSM7 with 2 satellites, 2 signals, 4 cells (45 raw values, 565 bits) lays
     out, all values are consumed, and the identity hypothesis of the message-level theorem holds -/
